@@ -17,6 +17,8 @@ pub struct SimOut {
     /// id -> (def index, closed arguments) for entries that are instantiations of user defs
     pub def_insts: BTreeMap<u32, (usize, Vec<Ty>)>,
     pub root_ids: Vec<u32>,
+    /// interning table: identity key -> id
+    pub ids: HashMap<Ty, u32>,
 }
 
 /// `T::Identity` of scale-info applied at the top level only; aliases expanded everywhere.
@@ -352,5 +354,133 @@ pub fn simulate_roots(prog: &Program, roots: &[Ty]) -> SimOut {
         .enumerate()
         .map(|(i, t)| PortableType { id: i as u32, ty: t.expect("all registered types completed") })
         .collect();
-    SimOut { registry: PortableRegistry { types }, keys: sim.keys, def_insts: sim.def_insts, root_ids }
+    SimOut { registry: PortableRegistry { types }, keys: sim.keys, def_insts: sim.def_insts, root_ids, ids: sim.interned }
+}
+
+// ------------------------------------------------------------------------------------------------
+// Coincidence-freedom decided exactly from the source program (DESIGN.md 3.3)
+// ------------------------------------------------------------------------------------------------
+
+/// Positions of a field type the generator consults: (open source expression, is a bare parameter
+/// position). Box shares the node of its content; PhantomData contributes nothing; arguments at
+/// skipped parameter positions of a definition are not recorded by scale-info.
+fn consulted_positions(prog: &Program, t: &Ty, out: &mut Vec<(Ty, bool)>) {
+    use Ty::*;
+    match t {
+        Box(x) | Alias(_, x) => {
+            // same registry node as the content
+            let mut inner = std::vec::Vec::new();
+            consulted_positions(prog, x, &mut inner);
+            if let Some(first) = inner.first_mut() {
+                if matches!(t, Alias(..)) {
+                    first.1 = false;
+                }
+            }
+            out.extend(inner);
+        }
+        Phantom(_) => {}
+        Param(_) => out.push((t.clone(), true)),
+        Prim(_) | Str | Marker(_) | NonZero(_) | Duration | CowStr | Assoc(..) => out.push((t.clone(), false)),
+        BitVec(s, _) => {
+            out.push((t.clone(), false));
+            out.push((Prim(*s), false));
+        }
+        Vec(x) | VecDeque(x) | Array(x, _) | Option(x) | Cow(x) | BTreeSet(x) | BinaryHeap(x) | Range(x)
+        | RangeInclusive(x) | Compact(x) => {
+            out.push((t.clone(), false));
+            consulted_positions(prog, x, out);
+        }
+        Result(a, b) | BTreeMap(a, b) => {
+            out.push((t.clone(), false));
+            consulted_positions(prog, a, out);
+            consulted_positions(prog, b, out);
+        }
+        Tuple(ts) => {
+            out.push((t.clone(), false));
+            for x in ts {
+                consulted_positions(prog, x, out);
+            }
+        }
+        Def(d, args) => {
+            out.push((t.clone(), false));
+            for (i, a) in args.iter().enumerate() {
+                if !prog.defs[*d].params[i].skipped {
+                    consulted_positions(prog, a, out);
+                }
+            }
+        }
+    }
+}
+
+/// For every instantiation of a user definition present in the registry: None = coincidence-free,
+/// Some(reason) otherwise.
+pub fn cf_source(prog: &Program, sim: &SimOut) -> BTreeMap<u32, Option<String>> {
+    let mut out = BTreeMap::new();
+    for (id, (d, args)) in &sim.def_insts {
+        out.insert(*id, cf_inst(prog, sim, *d, args));
+    }
+    out
+}
+
+fn cf_inst(prog: &Program, sim: &SimOut, d: usize, args: &[Ty]) -> Option<String> {
+    let def = &prog.defs[d];
+    let id_of = |t: &Ty| sim.ids.get(&identity_key(t)).copied();
+    let mut arg_ids: Vec<(usize, u32)> = Vec::new();
+    for (i, p) in def.params.iter().enumerate() {
+        if !p.skipped {
+            if let Some(id) = id_of(&args[i]) {
+                arg_ids.push((i, id));
+            }
+        }
+    }
+    if arg_ids.is_empty() {
+        return None;
+    }
+    for a in 0..arg_ids.len() {
+        for b in a + 1..arg_ids.len() {
+            if arg_ids[a].1 == arg_ids[b].1 {
+                return Some(format!("CF-1: arguments {} and {} coincide", arg_ids[a].0, arg_ids[b].0));
+            }
+        }
+    }
+    let fields: Vec<&FieldDecl> = match &def.kind {
+        DefKind::Struct(_, fs) => fs.iter().collect(),
+        DefKind::Enum(vs) => vs.iter().flat_map(|v| v.fields.iter()).collect(),
+    };
+    for f in fields {
+        if f.skip {
+            continue;
+        }
+        // CF-3: transparent wrapper directly around a parameter at field level
+        let mut top = &f.ty;
+        let mut wrapped = false;
+        while let Ty::Box(x) | Ty::Cow(x) = top {
+            top = x;
+            wrapped = true;
+        }
+        if wrapped && matches!(top, Ty::Param(_)) {
+            return Some("CF-3: parameter directly under a transparent wrapper".into());
+        }
+        let mut pos = Vec::new();
+        consulted_positions(prog, &f.ty, &mut pos);
+        if f.compact {
+            pos.push((Ty::Compact(f.ty.clone().b()), false));
+        }
+        for (expr, is_param) in pos {
+            if is_param {
+                continue;
+            }
+            let closed = expr.subst(args, prog);
+            if let Some(cid) = id_of(&closed) {
+                if let Some((i, _)) = arg_ids.iter().find(|(_, aid)| *aid == cid) {
+                    return Some(format!(
+                        "CF-2: component `{}` has the id of argument {}",
+                        prog.render_ty(&expr, Some(d)),
+                        i
+                    ));
+                }
+            }
+        }
+    }
+    None
 }
